@@ -744,10 +744,15 @@ class ConfigDict(Config):
 
 
 def _format_string(value: bytes) -> bytes:
+    # Like git's write_pair(): quote when leading/trailing blanks would be
+    # trimmed, when a comment character would cut the value short, and when a
+    # carriage return would otherwise be taken for part of a CRLF line ending.
     if (
         value.startswith((b" ", b"\t"))
         or value.endswith((b" ", b"\t"))
         or b"#" in value
+        or b";" in value
+        or b"\r" in value
     ):
         return b'"' + _escape_value(value) + b'"'
     else:
@@ -766,7 +771,9 @@ _WHITESPACE_CHARS = [ord(b"\t"), ord(b" ")]
 
 
 def _parse_string(value: bytes) -> bytes:
-    value_array = bytearray(value.strip())
+    # git's notion of whitespace: vertical tab and form feed are ordinary
+    # value characters (bytes.strip() would drop them).
+    value_array = bytearray(value.strip(b" \t\r\n"))
     ret = bytearray()
     whitespace = bytearray()
     in_quotes = False
@@ -821,7 +828,9 @@ def _parse_string(value: bytes) -> bytes:
 def _escape_value(value: bytes) -> bytes:
     """Escape a value."""
     value = value.replace(b"\\", b"\\\\")
-    value = value.replace(b"\r", b"\\r")
+    # There is no "\r" escape in git's config syntax (git rejects it and
+    # _parse_string does not decode it): a carriage return is written raw,
+    # inside the quotes that _format_string adds for it.
     value = value.replace(b"\n", b"\\n")
     value = value.replace(b"\t", b"\\t")
     value = value.replace(b'"', b'\\"')
